@@ -88,7 +88,16 @@ static void check_grid(const SeqC &c, vf::Obs &o) {
   i64 ctor = c.ctor;
   if (ctor == 3 && v.size() > 6) ctor = 0;
   switch (ctor) {
-    case 1: res = outcome([&] { Grd g(v.begin(), v.end()); }, what); break;
+    case 1:
+      // iterator pair over a vector: mutable iterators, const_iterators of a const vector, cbegin / cend, raw pointers -
+      // four different static argument types for the same range (overload resolution must not matter)
+      switch (c.code.size() % 4) {
+        case 0: res = outcome([&] { Grd g(v.begin(), v.end()); }, what); break;
+        case 1: { const std::vector<double> &cv = v; res = outcome([&] { Grd g(cv.begin(), cv.end()); }, what); break; }
+        case 2: res = outcome([&] { Grd g(v.cbegin(), v.cend()); }, what); break;
+        default: res = outcome([&] { const double *b = v.data(); Grd g(b, b + v.size()); }, what); break;
+      }
+      break;
     case 2: { std::list<double> l(v.begin(), v.end()); res = outcome([&] { Grd g(l.begin(), l.end()); }, what); break; }
     case 3:
       res = outcome([&] {
